@@ -473,6 +473,19 @@ func genHttpConv(r *Rand, tier string, emit func(sx.Sx)) {
 		}
 		emit(sx.L(mk("/index.html", 200), sx.L(sx.A("ex"), req, resp), mk("/api/cart?id=7", 200), mk("/api/order", 201)))
 	}
+	// an h2c offer that is ignored, then one last request shorter than the 24 bytes of the HTTP/2 preface the client
+	// half looks for after the offer (an HTTP/1.0 request without header fields): it is a request like any other
+	{
+		hs := sx.L(sx.L(sx.S("Host"), sx.S("host.example")), sx.L(sx.S("Connection"), sx.S("Upgrade, HTTP2-Settings")), sx.L(sx.S("Upgrade"), sx.S("h2c")),
+			sx.L(sx.S("HTTP2-Settings"), sx.S("AAMAAABkAAQCAAAAAAIAAAAA")))
+		offer := sx.L(sx.A("ex"), sx.L(sx.A("req"), sx.S("GET"), sx.S("/a"), sx.N(1), hs, sx.A("none"), sx.B(nil)),
+			sx.L(sx.A("resp"), sx.N(200), sx.S("OK"), sx.N(1), sx.L(), sx.A("cl"), sx.B([]byte("ok"))))
+		for _, m := range []string{"POST", "GET", "PUT"} {
+			short := sx.L(sx.A("ex"), sx.L(sx.A("req"), sx.S(m), sx.S("/b"), sx.N(0), sx.L(), sx.A("none"), sx.B(nil)),
+				sx.L(sx.A("resp"), sx.N(200), sx.S("OK"), sx.N(0), sx.L(), sx.A("close"), sx.B([]byte("bye"))))
+			emit(sx.L(offer, short))
+		}
+	}
 	// a conditional GET answered 304 with the Content-Length of the representation it does not send (and a 204 with
 	// Content-Length: 0): bodyless whatever the header says, the next exchange starts right behind the header block
 	for _, st := range []int{304, 204} {
